@@ -1656,12 +1656,13 @@ theorem dictGet_mem {m : List (Nat × Nat)} {i t : Nat} (h : dictGet m i = some 
 structure ScanOK (now : Nat) (hub : List HubEntry) (sc : Scan) : Prop where
   expired : ∀ t ∈ sc.expired, ∃ e ∈ hub, e.tid = t ∧ ∃ w, e.tto = some w ∧ w ≤ now
   timeout : ∀ t, sc.timeoutTask = some t → ∃ e ∈ hub, e.tid = t ∧ ∃ w, e.tto = some w ∧ now < w ∧ sc.timeout = some (w - now)
-  fds : ∀ p, p ∈ sc.rl ∨ p ∈ sc.wl ∨ p ∈ sc.xl → ∃ e ∈ hub, e.tid = p.2 ∧ e.hasFds = true
+  fds : ∀ p, p ∈ sc.rl ∨ p ∈ sc.wl ∨ p ∈ sc.xl → ∃ e ∈ hub, e.tid = p.2 ∧ e.hasFds = true ∧ ∀ w, e.tto = some w → now < w
 
 theorem hasFds_of_mem {e : HubEntry} {i : Nat} (h : i ∈ e.rl ∨ i ∈ e.wl ∨ i ∈ e.xl) : e.hasFds = true := by
   cases hr : e.rl <;> cases hw : e.wl <;> cases hx : e.xl <;> simp_all [HubEntry.hasFds]
 
-theorem ScanOK.addFds {now hub sc} {e : HubEntry} (h : ScanOK now hub sc) (he : e ∈ hub) : ScanOK now hub (addFds sc e) := by
+theorem ScanOK.addFds {now hub sc} {e : HubEntry} (h : ScanOK now hub sc) (he : e ∈ hub) (hlive : ∀ w, e.tto = some w → now < w) :
+    ScanOK now hub (addFds sc e) := by
   refine ⟨h.expired, h.timeout, ?_⟩
   intro p hp
   simp only [Pox.Recoco.addFds] at hp
@@ -1673,9 +1674,9 @@ theorem ScanOK.addFds {now hub sc} {e : HubEntry} (h : ScanOK now hub sc) (he : 
         | exact h.fds p (.inr (.inl h1))
         | exact h.fds p (.inr (.inr h1))
     · first
-        | exact ⟨e, he, h1.1.symm, hasFds_of_mem (.inl h1.2)⟩
-        | exact ⟨e, he, h1.1.symm, hasFds_of_mem (.inr (.inl h1.2))⟩
-        | exact ⟨e, he, h1.1.symm, hasFds_of_mem (.inr (.inr h1.2))⟩
+        | exact ⟨e, he, h1.1.symm, hasFds_of_mem (.inl h1.2), hlive⟩
+        | exact ⟨e, he, h1.1.symm, hasFds_of_mem (.inr (.inl h1.2)), hlive⟩
+        | exact ⟨e, he, h1.1.symm, hasFds_of_mem (.inr (.inr h1.2)), hlive⟩
 
 theorem ScanOK.weaken {now hub hub' sc} (h : ScanOK now hub sc) (hs : ∀ e ∈ hub, e ∈ hub') : ScanOK now hub' sc :=
   ⟨fun t ht => let ⟨e, he, r⟩ := h.expired t ht; ⟨e, hs e he, r⟩,
@@ -1687,7 +1688,8 @@ theorem ScanOK.step {now pre sc} (e : HubEntry) (h : ScanOK now pre sc) : ScanOK
   have he : e ∈ pre ++ [e] := List.mem_append_right _ List.mem_cons_self
   unfold scanEntry
   split
-  · exact h'.addFds he
+  · rename_i hnone
+    exact h'.addFds he (fun w hw => by rw [hnone] at hw; cases hw)
   · rename_i w hw
     split
     · rename_i hle
@@ -1699,7 +1701,7 @@ theorem ScanOK.step {now pre sc} (e : HubEntry) (h : ScanOK now pre sc) : ScanOK
         exact ⟨e, he, rfl, w, hw, hle⟩
     · rename_i hlt
       simp only []
-      refine ScanOK.addFds ?_ he
+      refine ScanOK.addFds ?_ he (fun w' hw' => by rw [hw] at hw'; cases hw'; omega)
       split
       · refine ⟨h'.expired, ?_, h'.fds⟩
         intro t ht; simp only [Option.some.injEq] at ht; subst ht
@@ -1932,7 +1934,7 @@ theorem NEx.hubSelect (cfg : Cfg) {s : St} (h : NEx [] s) (hi : Inv s) : NEx [] 
       rw [this, hnow]
       simp only [hubTimeout, hto]; omega
     · intro p hp e he het
-      obtain ⟨e0, he0, het0, hf⟩ := hsc.fds p hp
+      obtain ⟨e0, he0, het0, hf, _⟩ := hsc.fds p hp
       have : e = e0 := tid_inj hinj (hsub e he) (hhub e0 he0) (het.trans het0.symm)
       subst this; exact hf
 
@@ -2681,12 +2683,6 @@ def Out.final : Out → Bool
     · simp
     · split <;> simp
 
-/-- what the generator at the head of the ready deque is sent: its own pending exception, else its own pending value -/
-def pendingRecv (tk : Task) : Recv :=
-  match tk.re with
-  | some e => .exc e
-  | none => .val tk.rv
-
 
 /-- **isolation, generator stage.**  The generator of a top-level task raises when resumed with `r` (its own `raise`, or an
 exception thrown in that it does not catch): the task becomes dead and stays out of every queue; nothing else changes. -/
@@ -2728,14 +2724,14 @@ theorem resumeGen_final (cfg : Cfg) (s : St) (c p k : Nat) (tk ptk : Task) (prog
   rcases Nat.eq_zero_or_pos pc with rfl | hpos
   · cases o with
     | raise e =>
-      simp [subOut, finishSub, fastSchedule, setStatus, hnr, deliver, stL, List.getElem?_modify, hp, hpc, hcp, htk]
+      simp [hgo, subOut, finishSub, fastSchedule, setStatus, hnr, deliver, stL, List.getElem?_modify, hp, hpc, hcp, htk]
       intro u h1 h2
       obtain ⟨e1, e2⟩ := fin2 u h1 h2
       cases s.tasks[u]? <;> simp [e1, e2]
     | stop =>
       cases hfx : cfg.fixEmptySub
       all_goals
-        simp [hfx, subOut, finishSub, fastSchedule, setStatus, hnr, deliver, stL, List.getElem?_modify, hp, hpc, hcp, htk]
+        simp [hgo, hfx, subOut, finishSub, fastSchedule, setStatus, hnr, deliver, stL, List.getElem?_modify, hp, hpc, hcp, htk]
         intro u h1 h2
         obtain ⟨e1, e2⟩ := fin2 u h1 h2
         cases s.tasks[u]? <;> simp [e1, e2]
@@ -2743,7 +2739,7 @@ theorem resumeGen_final (cfg : Cfg) (s : St) (c p k : Nat) (tk ptk : Task) (prog
       cases y <;> simp [Out.final, Y.isBlocking] at hfin
       case raise m => exact absurd hgo (genStep_ne_yield_raise _ _ _ _ _)
       all_goals
-        simp [subOut, Y.isBlocking, finishSub, fastSchedule, setStatus, hnr, deliver, stL, List.getElem?_modify, hp, hpc, hcp, htk,
+        simp [hgo, subOut, Y.isBlocking, finishSub, fastSchedule, setStatus, hnr, deliver, stL, List.getElem?_modify, hp, hpc, hcp, htk,
           cancelTimer]
         intro u h1 h2
         obtain ⟨e1, e2⟩ := fin2 u h1 h2
@@ -2751,12 +2747,12 @@ theorem resumeGen_final (cfg : Cfg) (s : St) (c p k : Nat) (tk ptk : Task) (prog
   · have hne : pc ≠ 0 := by omega
     cases o with
     | raise e =>
-      simp [hne, subOut, finishSub, fastSchedule, setStatus, hnr, deliver, stL, List.getElem?_modify, hp, hpc, hcp, htk]
+      simp [hgo, hne, subOut, finishSub, fastSchedule, setStatus, hnr, deliver, stL, List.getElem?_modify, hp, hpc, hcp, htk]
       intro u h1 h2
       obtain ⟨e1, e2⟩ := fin2 u h1 h2
       cases s.tasks[u]? <;> simp [e1, e2]
     | stop =>
-      simp [hne, subOut, finishSub, fastSchedule, setStatus, hnr, deliver, stL, List.getElem?_modify, hp, hpc, hcp, htk]
+      simp [hgo, hne, subOut, finishSub, fastSchedule, setStatus, hnr, deliver, stL, List.getElem?_modify, hp, hpc, hcp, htk]
       intro u h1 h2
       obtain ⟨e1, e2⟩ := fin2 u h1 h2
       cases s.tasks[u]? <;> simp [e1, e2]
@@ -2764,7 +2760,7 @@ theorem resumeGen_final (cfg : Cfg) (s : St) (c p k : Nat) (tk ptk : Task) (prog
       cases y <;> simp [Out.final, Y.isBlocking] at hfin
       case raise m => exact absurd hgo (genStep_ne_yield_raise _ _ _ _ _)
       all_goals
-        simp [hne, subOut, Y.isBlocking, finishSub, fastSchedule, setStatus, hnr, deliver, stL, List.getElem?_modify, hp, hpc, hcp, htk,
+        simp [hgo, hne, subOut, Y.isBlocking, finishSub, fastSchedule, setStatus, hnr, deliver, stL, List.getElem?_modify, hp, hpc, hcp, htk,
           cancelTimer]
         intro u h1 h2
         obtain ⟨e1, e2⟩ := fin2 u h1 h2
@@ -2789,9 +2785,12 @@ theorem resumeGen_event (cfg : Cfg) (s : St) (t : Nat) (tk : Task) (prog : List 
 
 /-! ## Part 5: a cycle changes `ctl` (kind, pc, status) of the task it runs only; finished tasks never run again -/
 
-/-- `l'` extends `l` and agrees with it on `ctl` everywhere except possibly at index `t` -/
+/-- everything of a task except the mailbox fields `rv` / `re` (which a finishing sub-task writes into its caller) -/
+def ctl2 (k : Task) : Kind × Nat × Status × Option (Nat × Bool) × Nat × Option Rf := (k.kind, k.pc, k.st, k.wake, k.prio, k.rf)
+
+/-- `l'` extends `l` and agrees with it on `ctl2` everywhere except possibly at index `t` -/
 def CtlExt (t : Nat) (l l' : List Task) : Prop :=
-  ∀ u, u ≠ t → u < l.length → (l'.map ctl)[u]? = (l.map ctl)[u]?
+  ∀ u, u ≠ t → u < l.length → (l'.map ctl2)[u]? = (l.map ctl2)[u]?
 
 theorem CtlExt.refl (t : Nat) (l : List Task) : CtlExt t l l := fun _ _ _ => rfl
 
@@ -2799,8 +2798,8 @@ theorem CtlExt.trans {t : Nat} {a b c : List Task} (h1 : CtlExt t a b) (h2 : Ctl
     CtlExt t a c := fun u hu hl => (h2 u hu (by omega)).trans (h1 u hu hl)
 
 theorem CtlExt.modify_keep {t u : Nat} {l : List Task} {f : Task → Task}
-    (h : ∀ k, (f k).kind = k.kind ∧ (f k).pc = k.pc ∧ (f k).st = k.st) : CtlExt t l (l.modify u f) := by
-  intro v _ _; rw [map_ctl_modify h]
+    (h : ∀ k, ctl2 (f k) = ctl2 k) : CtlExt t l (l.modify u f) := by
+  intro v _ _; rw [map_modify_of ctl2 f h]
 
 theorem CtlExt.modify_self {t : Nat} {l : List Task} {f : Task → Task} : CtlExt t l (l.modify t f) := by
   intro v hv _
@@ -2810,7 +2809,7 @@ theorem CtlExt.modify_self {t : Nat} {l : List Task} {f : Task → Task} : CtlEx
 
 theorem CtlExt.push {t : Nat} {l : List Task} {tk : Task} : CtlExt t l (l ++ [tk]) := by
   intro v _ hl
-  simp only [List.map_append, List.getElem?_append_left (by simpa using hl : v < (l.map ctl).length)]
+  simp only [List.map_append, List.getElem?_append_left (by simpa using hl : v < (l.map ctl2).length)]
 
 /-- frame of one scheduler transition with respect to the task it runs -/
 structure CycFr (t : Nat) (s s' : St) : Prop where
@@ -2826,7 +2825,7 @@ theorem CycFr.of_tasks {t : Nat} {s s' : St} (h : s'.tasks = s.tasks) : CycFr t 
   ⟨by rw [h]; exact Nat.le_refl _, by rw [h]; exact CtlExt.refl _ _⟩
 
 theorem CycFr.setTask_keep {t u : Nat} {s : St} {f : Task → Task}
-    (h : ∀ k, (f k).kind = k.kind ∧ (f k).pc = k.pc ∧ (f k).st = k.st) : CycFr t s (setTask s u f) :=
+    (h : ∀ k, ctl2 (f k) = ctl2 k) : CycFr t s (setTask s u f) :=
   ⟨by simp, CtlExt.modify_keep h⟩
 
 theorem CycFr.setTask_self {t : Nat} {s : St} {f : Task → Task} : CycFr t s (setTask s t f) :=
@@ -2879,24 +2878,24 @@ theorem CycFr.topOut (t : Nat) (s : St) (o : Out) : CycFr t s (topOut s t o) := 
   | yield y => exact CycFr.doYield t s y
 
 theorem CycFr.subOut (fx : Bool) (t : Nat) (s : St) (p pc : Nat) (o : Out) : CycFr t s (subOut fx s t p pc o) := by
-  have keep : ∀ (f : Task → Task), (∀ k, (f k).kind = k.kind ∧ (f k).pc = k.pc ∧ (f k).st = k.st) →
+  have keep : ∀ (f : Task → Task), (∀ k, ctl2 (f k) = ctl2 k) →
       CycFr t s (Pox.Recoco.finishSub (setTask s p f) t p) :=
     fun f hf => (CycFr.setTask_keep hf).trans (CycFr.finishSub t _ p)
   cases o with
-  | raise e => exact keep _ (fun _ => ⟨rfl, rfl, rfl⟩)
+  | raise e => exact keep _ (fun _ => rfl)
   | stop =>
     simp only [Pox.Recoco.subOut]
     split
-    · exact keep _ (fun _ => ⟨rfl, rfl, rfl⟩)
+    · exact keep _ (fun _ => rfl)
     · exact CycFr.finishSub t s p
   | yield y =>
     simp only [Pox.Recoco.subOut]
     split
     · exact CycFr.doYield t s y
     · split
-      · exact keep _ (fun _ => ⟨rfl, rfl, rfl⟩)
-      · exact keep _ (fun _ => ⟨rfl, rfl, rfl⟩)
-      · refine CycFr.of_after (CycFr.finishSub t _ p) (CycFr.of_after (CycFr.setTask_keep (fun _ => ⟨rfl, rfl, rfl⟩)) (CycFr.of_tasks rfl))
+      · exact keep _ (fun _ => rfl)
+      · exact keep _ (fun _ => rfl)
+      · refine CycFr.of_after (CycFr.finishSub t _ p) (CycFr.of_after (CycFr.setTask_keep (fun _ => rfl)) (CycFr.of_tasks rfl))
       · exact CycFr.refl _ _
 
 theorem CycFr.timerStep (t : Nat) (s : St) (j pc : Nat) : CycFr t s (timerStep s t j pc) := by
@@ -2929,15 +2928,33 @@ theorem CycFr.resumeGen (cfg : Cfg) (t : Nat) (s : St) (tk : Task) (r : Recv) (r
     · split
       · refine CycFr.of_after ?_ h0
         refine CycFr.of_after (CycFr.subOut _ t _ _ _ _) ?_
-        exact CycFr.setTask_keep (fun _ => ⟨rfl, rfl, rfl⟩)
+        exact CycFr.setTask_keep (fun _ => rfl)
       · refine CycFr.of_after ?_ h0; exact CycFr.subOut _ t _ _ _ _
   · refine CycFr.of_after ?_ h0; exact CycFr.timerStep t _ _ _
 
-theorem CycFr.execPre (cfg : Cfg) (t : Nat) (s : St) (tk : Task) : CycFr t s (execPre cfg s t tk).2 := by
-  refine ⟨?_, fun u _ _ => by rw [execPre_ctl]⟩
+/-- `execPre` touches no task but `t` -/
+theorem execPre_others (cfg : Cfg) (s : St) (t : Nat) (tk : Task) : ∀ u, u ≠ t → (execPre cfg s t tk).2.tasks[u]? = s.tasks[u]? := by
+  intro u hu
+  unfold Pox.Recoco.execPre
+  simp only []
+  repeat' split
+  all_goals first
+    | rfl
+    | exact getElem?_modify_ne' hu
+    | (simp only [registerSelect, setTask_tasks]; rw [getElem?_modify_ne' hu, getElem?_modify_ne' hu])
+    | (simp only [registerSelect, setTask_tasks]; rw [getElem?_modify_ne' hu])
+
+theorem CycFr.execPre (cfg : Cfg) (t : Nat) (s : St) (tk : Task) : CycFr t s (Pox.Recoco.execPre cfg s t tk).2 := by
+  refine ⟨?_, fun u hu _ => by simp only [List.getElem?_map]; rw [execPre_others cfg s t tk u hu]⟩
   have := congrArg List.length (execPre_ctl cfg s t tk)
   simp only [List.length_map] at this
   omega
+
+/-- `ctl` is a projection of `ctl2` -/
+theorem ctl_of_ctl2 {l l' : List Task} {u : Nat} (h : (l'.map ctl2)[u]? = (l.map ctl2)[u]?) : (l'.map ctl)[u]? = (l.map ctl)[u]? := by
+  have e : ∀ m : List Task, (m.map ctl)[u]? = ((m.map ctl2)[u]?).map (fun c => (c.1, c.2.1, c.2.2.1)) := by
+    intro m; simp only [List.getElem?_map]; cases m[u]? <;> rfl
+  rw [e, e, h]
 
 
 theorem CycFr.cycleExec (cfg : Cfg) (s : St) (t : Nat) (hr : s.running = some t) : CycFr t s (Pox.Recoco.cycleExec cfg s) := by
@@ -2957,17 +2974,18 @@ theorem CycFr.cycleExec (cfg : Cfg) (s : St) (t : Nat) (hr : s.running = some t)
       · exact hp.trans (CycFr.resumeGen cfg t s1 _ r _)
 
 /-- one cycle leaves kind, step counter and status of every task other than the one it runs untouched -/
-theorem cycle_ctl_other (cfg : Cfg) (s : St) (hrun : s.running = none) (u : Nat) (hu : s.ready.head? ≠ some u)
+theorem cycle_ctl_other (cfg : Cfg) (s : St) (hrun : s.running = none) (u : Nat) (hu : u ∉ s.ready)
     (hl : u < s.tasks.length) : ((cycle cfg s).tasks.map ctl)[u]? = (s.tasks.map ctl)[u]? := by
-  unfold Pox.Recoco.cycle cyclePop
-  simp only [hrun]
-  split
-  · rename_i t rest _ hrd
-    have hrd' : s.ready = t :: rest := hrd
-    have hne : u ≠ t := by rintro rfl; exact hu (by simp [hrd'])
-    exact (CycFr.cycleExec cfg { s with cycles := s.cycles + 1, running := some t, ready := rest } t rfl).ctl u hne hl
-  · unfold Pox.Recoco.cycleExec
-    simp only [hrun]
+  cases hlot : lottery s.tasks s.draws s.ready with
+  | none =>
+    simp [cycle, cyclePop, hrun, hlot, cycleExec]
+  | some res =>
+    obtain ⟨t, rest, ds'⟩ := res
+    rw [cycle_pop cfg s t rest ds' hrun hlot]
+    have hne : u ≠ t := by
+      rintro rfl
+      exact hu ((lottery_perm _ _ _ hlot).mem_iff.mp List.mem_cons_self)
+    exact ctl_of_ctl2 ((CycFr.cycleExec cfg (popped s t rest ds') t rfl).ctl u hne hl)
 
 theorem iter_running (cfg : Cfg) (s : St) (hrun : s.running = none) : (iter cfg s).running = none := by
   unfold Pox.Recoco.iter
@@ -2979,11 +2997,8 @@ theorem iter_running (cfg : Cfg) (s : St) (hrun : s.running = none) : (iter cfg 
     · exact h1
     · unfold Pox.Recoco.cycle; exact cycleExec_running _ _
 
-theorem Inv.head_live {s : St} (hi : Inv s) {t : Nat} (h : s.ready.head? = some t) : stL s.tasks t = some .live := by
-  refine hi.live t ?_
-  cases hr : s.ready with
-  | nil => simp [hr] at h
-  | cons a r => simp [hr] at h; subst h; simp [places, hr]
+theorem Inv.ready_live {s : St} (hi : Inv s) {t : Nat} (h : t ∈ s.ready) : stL s.tasks t = some .live :=
+  hi.live t (by simp [places, h])
 
 /-- a task that is done or dead keeps its step counter and status for ever: it is never run again -/
 theorem dead_stays (cfg : Cfg) : ∀ (n : Nat) {s : St}, Inv s → s.running = none → ∀ (u : Nat) (c : Kind × Nat × Status),
@@ -3003,7 +3018,7 @@ theorem dead_stays (cfg : Cfg) : ∀ (n : Nat) {s : St}, Inv s → s.running = n
         rw [cycle_ctl_other cfg _ hr1 u ?_ ?_]
         · exact hidle
         · intro hh
-          have := hi1.head_live hh
+          have := hi1.ready_live hh
           simp only [stL] at this
           simp only [List.getElem?_map] at hidle
           cases hk : (idleStep cfg s).tasks[u]? with
@@ -3032,35 +3047,37 @@ def NoSub (s : St) : Prop := ∀ k ∈ s.tasks.map (·.kind), ∀ a p, k ≠ .su
 structure RA (s s' : St) : Prop where
   ready : ∃ post, s'.ready = s.ready ++ post
   kinds : s'.tasks.map (·.kind) = s.tasks.map (·.kind)
+  prios : s'.tasks.map (·.prio) = s.tasks.map (·.prio)
 
-theorem RA.refl (s : St) : RA s s := ⟨⟨[], by simp⟩, rfl⟩
+theorem RA.refl (s : St) : RA s s := ⟨⟨[], by simp⟩, rfl, rfl⟩
 theorem RA.trans {a b c : St} (h1 : RA a b) (h2 : RA b c) : RA a c := by
   obtain ⟨p1, e1⟩ := h1.ready
   obtain ⟨p2, e2⟩ := h2.ready
-  exact ⟨⟨p1 ++ p2, by rw [e2, e1, List.append_assoc]⟩, h2.kinds.trans h1.kinds⟩
+  exact ⟨⟨p1 ++ p2, by rw [e2, e1, List.append_assoc]⟩, h2.kinds.trans h1.kinds, h2.prios.trans h1.prios⟩
 theorem RA.of_after {a b c : St} (h2 : RA b c) (h1 : RA a b) : RA a c := h1.trans h2
 
 theorem RA.same {s s' : St} (hr : s'.ready = s.ready) (ht : s'.tasks = s.tasks) : RA s s' :=
-  ⟨⟨[], by simp [hr]⟩, by rw [ht]⟩
+  ⟨⟨[], by simp [hr]⟩, by rw [ht], by rw [ht]⟩
 
-theorem RA.setTask {s : St} {u : Nat} {f : Task → Task} (h : ∀ k, (f k).kind = k.kind) : RA s (setTask s u f) :=
-  ⟨⟨[], by simp⟩, map_modify_of (·.kind) f h _ _⟩
+theorem RA.setTask {s : St} {u : Nat} {f : Task → Task} (h : ∀ k, (f k).kind = k.kind ∧ (f k).prio = k.prio) :
+    RA s (setTask s u f) :=
+  ⟨⟨[], by simp⟩, map_modify_of (·.kind) f (fun k => (h k).1) _ _, map_modify_of (·.prio) f (fun k => (h k).2) _ _⟩
 
 theorem RA.fastSchedule (s : St) (t : Nat) : RA s (fastSchedule s t false) := by
   unfold Pox.Recoco.fastSchedule
   split
   · exact RA.same rfl rfl
-  · exact ⟨⟨[t], by simp⟩, rfl⟩
+  · exact ⟨⟨[t], by simp⟩, rfl, rfl⟩
 
 theorem RA.registerSelect (s : St) (t : Nat) (a b c : List Nat) (d : Option Nat) : RA s (registerSelect s t a b c d) := by
   unfold Pox.Recoco.registerSelect
   refine RA.of_after (b := Pox.Recoco.setTask s t _) (RA.same rfl rfl) (RA.setTask ?_)
-  intro _; rfl
+  intro _; exact ⟨rfl, rfl⟩
 
 theorem RA.doYield (s : St) (t : Nat) (y : Y) (hy : y.isAgain = false) : RA s (doYield s t y) := by
   cases y with
   | num n => cases n with
-    | zero => exact ⟨⟨[t], rfl⟩, rfl⟩
+    | zero => exact ⟨⟨[t], rfl⟩, rfl, rfl⟩
     | succ n => exact RA.registerSelect s t _ _ _ _
   | block => exact RA.refl s
   | sleep d => cases d with
@@ -3068,25 +3085,25 @@ theorem RA.doYield (s : St) (t : Nat) (y : Y) (hy : y.isAgain = false) : RA s (d
     | some d =>
       simp only [Pox.Recoco.doYield]
       split
-      · refine RA.of_after (RA.fastSchedule _ t) (RA.setTask ?_); intro _; rfl
+      · refine RA.of_after (RA.fastSchedule _ t) (RA.setTask ?_); intro _; exact ⟨rfl, rfl⟩
       · exact RA.registerSelect s t _ _ _ _
   | sleepAbs w =>
     simp only [Pox.Recoco.doYield]
     split
-    · refine RA.of_after (RA.fastSchedule _ t) (RA.setTask ?_); intro _; rfl
+    · refine RA.of_after (RA.fastSchedule _ t) (RA.setTask ?_); intro _; exact ⟨rfl, rfl⟩
     · exact RA.registerSelect s t _ _ _ _
   | select r w x to => exact RA.registerSelect s t _ _ _ _
-  | recv fd to => refine RA.of_after (RA.registerSelect _ t _ _ _ _) (RA.setTask ?_); intro _; rfl
-  | send fd len to bs => refine RA.of_after (RA.registerSelect _ t _ _ _ _) (RA.setTask ?_); intro _; rfl
+  | recv fd to => refine RA.of_after (RA.registerSelect _ t _ _ _ _) (RA.setTask ?_); intro _; exact ⟨rfl, rfl⟩
+  | send fd len to bs => refine RA.of_after (RA.registerSelect _ t _ _ _ _) (RA.setTask ?_); intro _; exact ⟨rfl, rfl⟩
   | exit => exact RA.same rfl rfl
   | raise n => exact RA.refl s
   | again k c => simp [Y.isAgain] at hy
-  | cancel j => exact ⟨⟨[t], rfl⟩, rfl⟩
+  | cancel j => exact ⟨⟨[t], rfl⟩, rfl, rfl⟩
 
 theorem RA.topOut (s : St) (t : Nat) (o : Out) (ho : ∀ y, o = .yield y → y.isAgain = false) : RA s (topOut s t o) := by
   cases o with
-  | stop => refine RA.setTask ?_; intro _; rfl
-  | raise e => refine RA.setTask ?_; intro _; rfl
+  | stop => refine RA.setTask ?_; intro _; exact ⟨rfl, rfl⟩
+  | raise e => refine RA.setTask ?_; intro _; exact ⟨rfl, rfl⟩
   | yield y => exact RA.doYield s t y (ho y rfl)
 
 theorem RA.timerStep (s : St) (t j pc : Nat) : RA s (timerStep s t j pc) := by
@@ -3094,7 +3111,7 @@ theorem RA.timerStep (s : St) (t j pc : Nat) : RA s (timerStep s t j pc) := by
   split
   · exact RA.same rfl rfl
   · split
-    · refine RA.setTask ?_; intro _; rfl
+    · refine RA.setTask ?_; intro _; exact ⟨rfl, rfl⟩
     · split
       · exact RA.same rfl rfl
       · split
@@ -3135,18 +3152,18 @@ theorem RA.execPre (cfg : Cfg) (s : St) (t : Nat) (tk : Task) : RA s (execPre cf
   all_goals first
     | exact RA.refl s
     | exact RA.same rfl rfl
-    | (refine RA.setTask ?_; intro _; rfl)
-    | (refine RA.of_after (b := Pox.Recoco.setTask s t _) (RA.same rfl rfl) (RA.setTask ?_); intro _; rfl)
-    | (refine RA.of_after (RA.setTask ?_) (RA.same rfl rfl); intro _; rfl)
+    | (refine RA.setTask ?_; intro _; exact ⟨rfl, rfl⟩)
+    | (refine RA.of_after (b := Pox.Recoco.setTask s t _) (RA.same rfl rfl) (RA.setTask ?_); intro _; exact ⟨rfl, rfl⟩)
+    | (refine RA.of_after (RA.setTask ?_) (RA.same rfl rfl); intro _; exact ⟨rfl, rfl⟩)
     | exact RA.of_after (RA.registerSelect _ t _ _ _ _) (RA.same rfl rfl)
-    | (refine RA.of_after (RA.registerSelect _ t _ _ _ _) (RA.of_after (RA.setTask ?_) (RA.same rfl rfl)); intro _; rfl)
+    | (refine RA.of_after (RA.registerSelect _ t _ _ _ _) (RA.of_after (RA.setTask ?_) (RA.same rfl rfl)); intro _; exact ⟨rfl, rfl⟩)
 
 
 theorem RA.resumeGen (cfg : Cfg) (hna : NoAgain cfg) (s : St) (t : Nat) (tk : Task) (r : Recv) (raw : Val)
     (hk : ∀ a p, tk.kind ≠ .sub a p) : RA s (resumeGen cfg s t tk r raw) := by
   have h0 : RA s { Pox.Recoco.setTask s t (fun k => { k with pc := k.pc + 1, wake := none }) with
                    trace := s.trace ++ [.step t tk.pc s.now r raw tk.wake] } := by
-    refine RA.of_after (b := Pox.Recoco.setTask s t _) (RA.same rfl rfl) (RA.setTask ?_); intro _; rfl
+    refine RA.of_after (b := Pox.Recoco.setTask s t _) (RA.same rfl rfl) (RA.setTask ?_); intro _; exact ⟨rfl, rfl⟩
   unfold Pox.Recoco.resumeGen
   simp only
   split
@@ -3175,7 +3192,7 @@ theorem RA.cycleExec (cfg : Cfg) (hna : NoAgain cfg) (s : St) (hns : NoSub s) : 
       split
       · rename_i s1 he; rw [he] at hp; exact hp
       · rename_i e s1 he; rw [he] at hp
-        refine RA.of_after (RA.setTask ?_) hp; intro _; rfl
+        refine RA.of_after (RA.setTask ?_) hp; intro _; exact ⟨rfl, rfl⟩
       · rename_i r s1 he; rw [he] at hp
         have hp' : RA s s1 := hp
         split
@@ -3192,32 +3209,42 @@ def cycles (cfg : Cfg) : Nat → St → St
   | 0, s => s
   | k + 1, s => cycles cfg k (cycle cfg s)
 
-/-- **fair** (programs without sub-task calls): the task at position `k` of the ready deque is at its head after exactly `k`
-cycles — nothing overtakes it, every cycle brings it one place forward. -/
-theorem fair_cycles (cfg : Cfg) (hna : NoAgain cfg) : ∀ (k : Nat) (s : St) (t : Nat), NoSub s → s.running = none →
+/-- every task has priority >= 1 (the default): the lottery of `cycle` always takes the head of the deque -/
+def HiPrio (s : St) : Prop := ∀ p ∈ s.tasks.map (·.prio), 8 ≤ p
+
+theorem HiPrio.prioL {s : St} (h : HiPrio s) (t : Nat) : 8 ≤ prioL s.tasks t := by
+  unfold Pox.Recoco.prioL
+  cases ht : s.tasks[t]? with
+  | none => exact Nat.le_refl _
+  | some k => exact h k.prio (List.mem_map_of_mem (List.mem_of_getElem? ht))
+
+/-- **fair** (programs without sub-task calls, priorities >= 1): the task at position `k` of the ready deque is at its head after
+exactly `k` cycles — nothing overtakes it, every cycle brings it one place forward. -/
+theorem fair_cycles (cfg : Cfg) (hna : NoAgain cfg) : ∀ (k : Nat) (s : St) (t : Nat), NoSub s → HiPrio s → s.running = none →
     s.ready[k]? = some t →
     (cycles cfg k s).ready.head? = some t ∧ (cycles cfg k s).running = none ∧ NoSub (cycles cfg k s)
-  | 0, s, t, hns, hrun, hk => ⟨by cases hr : s.ready <;> simp_all [cycles], hrun, hns⟩
-  | k + 1, s, t, hns, hrun, hk => by
+  | 0, s, t, hns, _, hrun, hk => ⟨by cases hr : s.ready <;> simp_all [cycles], hrun, hns⟩
+  | k + 1, s, t, hns, hhp, hrun, hk => by
     cases hr : s.ready with
     | nil => rw [hr] at hk; simp at hk
     | cons h rest =>
       rw [hr] at hk; simp only [List.getElem?_cons_succ] at hk
-      have hpop : cyclePop { s with cycles := s.cycles + 1 } = { s with cycles := s.cycles + 1, running := some h, ready := rest } := by
-        simp [cyclePop, hrun, hr]
-      have hra := RA.cycleExec cfg hna { s with cycles := s.cycles + 1, running := some h, ready := rest } hns
-      have hcyc : cycle cfg s = Pox.Recoco.cycleExec cfg { s with cycles := s.cycles + 1, running := some h, ready := rest } := by
-        unfold cycle; rw [hpop]
+      have hlot : lottery s.tasks s.draws s.ready = some (h, rest, s.draws) := by
+        rw [hr]; exact lottery_head _ _ _ _ (hhp.prioL h)
+      have hcyc := cycle_pop cfg s h rest s.draws hrun hlot
+      have hra := RA.cycleExec cfg hna (popped s h rest s.draws) hns
       obtain ⟨post, hpost⟩ := hra.ready
       have hk' : (cycle cfg s).ready[k]? = some t := by
         rw [hcyc, hpost]
         have hlt : k < rest.length := (List.getElem?_eq_some_iff.mp hk).1
-        simp only
+        simp only [popped]
         rw [List.getElem?_append_left hlt]; exact hk
       have hns' : NoSub (cycle cfg s) := by
         rw [hcyc]; intro kd hkd; rw [hra.kinds] at hkd; exact hns kd hkd
+      have hhp' : HiPrio (cycle cfg s) := by
+        rw [hcyc]; intro p hp; rw [hra.prios] at hp; exact hhp p hp
       have hrun' : (cycle cfg s).running = none := by rw [hcyc]; exact cycleExec_running _ _
-      exact fair_cycles cfg hna k (cycle cfg s) t hns' hrun' hk'
+      exact fair_cycles cfg hna k (cycle cfg s) t hns' hhp' hrun' hk'
 
 /-! ## Part 7: timers -/
 
@@ -3492,7 +3519,8 @@ theorem TFr.cycle (cfg : Cfg) (s : St) : TFr s (Pox.Recoco.cycle cfg s) := by
   unfold Pox.Recoco.cycle
   refine TFr.of_after (TFr.cycleExec cfg _) ?_
   unfold Pox.Recoco.cyclePop
-  split <;> exact TFr.same rfl
+  repeat' split
+  all_goals exact TFr.same rfl
 
 theorem TFr.iter (cfg : Cfg) (s : St) : TFr s (Pox.Recoco.iter cfg s) := by
   unfold Pox.Recoco.iter
@@ -3790,7 +3818,8 @@ theorem FI.iter (cfg : Cfg) {s : St} (h : FI s) : FI (Pox.Recoco.iter cfg s) := 
     · unfold Pox.Recoco.cycle
       refine FI.cycleExec cfg (h1.nf ?_)
       unfold Pox.Recoco.cyclePop
-      split <;> exact NF.same rfl rfl rfl
+      repeat' split
+      all_goals exact NF.same rfl rfl rfl
 
 theorem FI.run (cfg : Cfg) : ∀ (n : Nat) {s : St}, FI s → FI (Pox.Recoco.run cfg n s)
   | 0, _, h => h
@@ -3929,7 +3958,8 @@ theorem KP.iter (cfg : Cfg) (s : St) : KP s (Pox.Recoco.iter cfg s) := by
     · unfold Pox.Recoco.cycle
       refine KP.of_after (KP.cycleExec cfg _) (KP.of_after ?_ h1)
       unfold Pox.Recoco.cyclePop
-      split <;> exact KP.same rfl
+      repeat' split
+      all_goals exact KP.same rfl
 
 theorem KP.run (cfg : Cfg) : ∀ (n : Nat) (s : St), KP s (Pox.Recoco.run cfg n s)
   | 0, s => KP.refl s
@@ -3943,5 +3973,700 @@ theorem kind_stable (cfg : Cfg) (n : Nat) (s : St) (t : Nat) (k : Kind) (h : kdL
   rw [e] at h ⊢
   have hlt : t < (s.tasks.map (·.kind)).length := (List.getElem?_eq_some_iff.mp h).1
   rw [he, List.getElem?_append_left hlt]; exact h
+
+/-! ## Part 8: the scheduler never hits one of its own assertions / KeyErrors (`crashed` stays false) -/
+
+theorem fastSchedule_nc {s : St} {t : Nat} (f : Bool) (h : t ∉ s.ready) : (fastSchedule s t f).crashed = s.crashed := by
+  unfold fastSchedule; rw [if_neg h]
+
+@[simp] theorem registerSelect_crashed (s : St) (t : Nat) (a b c : List Nat) (d : Option Nat) :
+    (registerSelect s t a b c d).crashed = s.crashed := rfl
+@[simp] theorem setStatus_crashed (s : St) (t : Nat) (x : Status) : (setStatus s t x).crashed = s.crashed := rfl
+@[simp] theorem cancelTimer_crashed (s : St) (j : Nat) : (cancelTimer s j).crashed = s.crashed := rfl
+
+theorem doYield_nc {s : St} {t : Nat} (h : Held s t) (y : Y) : (doYield s t y).crashed = s.crashed := by
+  have hnr := h.not_ready
+  cases y with
+  | num n => cases n <;> simp [doYield]
+  | sleep d => cases d with
+    | none => rfl
+    | some d =>
+      simp only [doYield]
+      split
+      · rw [fastSchedule_nc false (by simpa using hnr)]; rfl
+      · rfl
+  | sleepAbs w =>
+    simp only [doYield]
+    split
+    · rw [fastSchedule_nc false (by simpa using hnr)]; rfl
+    · rfl
+  | again k c =>
+    simp only [doYield]
+    have hfresh : s.tasks.length ∉ s.ready := fun hm => by
+      have := h.2.live _ (List.mem_cons_of_mem _ (List.mem_append_left _ hm)); rw [stL_fresh] at this; cases this
+    rw [fastSchedule_nc true (by simpa using hfresh)]
+  | _ => simp [doYield]
+
+theorem finishSub_nc {s : St} {t k p : Nat} (h : Held s t) (hk : kdL s.tasks t = some (.sub k p)) :
+    (finishSub s t p).crashed = s.crashed := by
+  have hp := h.2.parent t k p hk h.live
+  have hnr : p ∉ s.ready := fun hm => hp.1 (List.mem_cons_of_mem _ (List.mem_append_left _ hm))
+  unfold Pox.Recoco.finishSub
+  rw [fastSchedule_nc true (by simpa [setStatus] using hnr)]; rfl
+
+theorem topOut_nc {s : St} {t : Nat} (h : Held s t) (o : Out) : (topOut s t o).crashed = s.crashed := by
+  cases o with
+  | stop => rfl
+  | raise e => rfl
+  | yield y => exact doYield_nc h y
+
+theorem subOut_nc {fx : Bool} {s : St} {t k p : Nat} (h : Held s t) (hk : kdL s.tasks t = some (.sub k p)) (pc : Nat) (o : Out) :
+    (subOut fx s t p pc o).crashed = s.crashed := by
+  have fin : ∀ (f : Task → Task), (∀ k, (f k).st = k.st) → (∀ k, (f k).kind = k.kind) →
+      (Pox.Recoco.finishSub (setTask s p f) t p).crashed = s.crashed := by
+    intro f h1 h2
+    have hh : Held (setTask s p f) t := by
+      have := h; simp only [Held, incTids, hubTids, setTask_running, setTask_ready, setTask_incoming, setTask_hub, setTask_tasks,
+        stL_modify h1, kdL_modify h2] at this ⊢; exact this
+    rw [finishSub_nc (k := k) hh (by rw [setTask_tasks, kdL_modify h2]; exact hk)]; rfl
+  cases o with
+  | raise e => exact fin _ (fun _ => rfl) (fun _ => rfl)
+  | stop =>
+    simp only [Pox.Recoco.subOut]
+    split
+    · exact fin _ (fun _ => rfl) (fun _ => rfl)
+    · exact finishSub_nc h hk
+  | yield y =>
+    simp only [Pox.Recoco.subOut]
+    split
+    · exact doYield_nc h y
+    · split
+      · exact fin _ (fun _ => rfl) (fun _ => rfl)
+      · exact fin _ (fun _ => rfl) (fun _ => rfl)
+      · rename_i j _
+        have h' : Held (cancelTimer s j) t := by held h
+        have hh : Held (setTask (cancelTimer s j) p (fun k => { k with rv := .num 0 })) t := by held h'
+        rw [finishSub_nc (k := k) hh (by simp only [setTask_tasks, kdL_modify, implies_true, cancelTimer]; exact hk)]; rfl
+      · rfl
+
+theorem timerStep_nc {s : St} {t : Nat} (h : Held s t) (j pc : Nat) (hj : j < s.timers.length) :
+    (timerStep s t j pc).crashed = s.crashed := by
+  unfold Pox.Recoco.timerStep
+  split
+  · rename_i hn; rw [List.getElem?_eq_none_iff] at hn; omega
+  · split
+    · rfl
+    · split
+      · rfl
+      · split
+        · exact doYield_nc h _
+        · simp only
+          rename_i tm _ _ _ _
+          split
+          · rfl
+          · have h' : Held { s with
+                timers := s.timers.modify j (fun m => { m with
+                  next := s.now + (if tm.cfg.recurring then tm.cfg.delay else 0), fired := m.fired + 1 }),
+                trace := s.trace ++ [.fire t tm.fired s.now] } t := by held h
+            rw [doYield_nc h']
+
+
+/-! ### well-formed program tables: every program index that occurs is valid -/
+
+/-- every `Again` in the table calls an existing program -/
+def WFcfg (cfg : Cfg) : Prop := ∀ prog ∈ cfg.progs, ∀ y ∈ prog, ∀ k c, y = Y.again k c → k < cfg.progs.length
+
+def kindOK (cfg : Cfg) (nt : Nat) : Kind → Prop
+  | .top k => k < cfg.progs.length
+  | .sub k _ => k < cfg.progs.length
+  | .timer j => j < nt
+
+/-- every task runs an existing program / timer -/
+def WFs (cfg : Cfg) (s : St) : Prop := ∀ kd ∈ s.tasks.map (·.kind), kindOK cfg s.timers.length kd
+
+/-- frame: no timer appears or disappears, existing tasks keep their kind, new tasks are sub-tasks running existing programs -/
+def KW (cfg : Cfg) (s s' : St) : Prop :=
+  s'.timers.length = s.timers.length ∧
+  ∃ ext, s'.tasks.map (·.kind) = s.tasks.map (·.kind) ++ ext ∧ ∀ kd ∈ ext, ∃ k p, kd = Kind.sub k p ∧ k < cfg.progs.length
+
+theorem KW.refl (cfg : Cfg) (s : St) : KW cfg s s := ⟨rfl, [], by simp, by simp⟩
+theorem KW.trans {cfg : Cfg} {a b c : St} (h1 : KW cfg a b) (h2 : KW cfg b c) : KW cfg a c := by
+  obtain ⟨l1, e1, k1, s1⟩ := h1; obtain ⟨l2, e2, k2, s2⟩ := h2
+  refine ⟨l2.trans l1, e1 ++ e2, by rw [k2, k1, List.append_assoc], ?_⟩
+  intro kd hk
+  rcases List.mem_append.mp hk with h | h
+  · exact s1 kd h
+  · exact s2 kd h
+theorem KW.of_after {cfg : Cfg} {a b c : St} (h2 : KW cfg b c) (h1 : KW cfg a b) : KW cfg a c := h1.trans h2
+theorem KW.same {cfg : Cfg} {s s' : St} (h1 : s'.tasks = s.tasks) (h2 : s'.timers.length = s.timers.length) : KW cfg s s' :=
+  ⟨h2, [], by simp [h1], by simp⟩
+theorem KW.setTask {cfg : Cfg} {s : St} {u : Nat} {f : Task → Task} (h : ∀ k, (f k).kind = k.kind) :
+    KW cfg s (Pox.Recoco.setTask s u f) :=
+  ⟨rfl, [], by simp only [setTask_tasks, List.append_nil]; exact map_kind_modify _ _ _ h, by simp⟩
+
+theorem KW.wfs {cfg : Cfg} {s s' : St} (h : KW cfg s s') (hw : WFs cfg s) : WFs cfg s' := by
+  obtain ⟨hl, ext, hk, hs⟩ := h
+  intro kd hm
+  rw [hk] at hm
+  rcases List.mem_append.mp hm with h1 | h1
+  · have := hw kd h1
+    rw [hl]; exact this
+  · obtain ⟨k, p, rfl, hlt⟩ := hs kd h1
+    exact hlt
+
+theorem KW.fastSchedule (cfg : Cfg) (s : St) (t : Nat) (f : Bool) : KW cfg s (Pox.Recoco.fastSchedule s t f) := by
+  unfold Pox.Recoco.fastSchedule; split <;> exact KW.same rfl rfl
+
+theorem KW.registerSelect (cfg : Cfg) (s : St) (t : Nat) (a b c : List Nat) (d : Option Nat) :
+    KW cfg s (Pox.Recoco.registerSelect s t a b c d) := by
+  unfold Pox.Recoco.registerSelect
+  refine KW.of_after (b := Pox.Recoco.setTask s t _) (KW.same rfl rfl) (KW.setTask ?_)
+  intro _; rfl
+
+theorem KW.setStatus (cfg : Cfg) (s : St) (t : Nat) (x : Status) : KW cfg s (Pox.Recoco.setStatus s t x) := by
+  unfold Pox.Recoco.setStatus; refine KW.setTask ?_; intro _; rfl
+
+theorem KW.finishSub (cfg : Cfg) (s : St) (t p : Nat) : KW cfg s (Pox.Recoco.finishSub s t p) :=
+  KW.of_after (KW.fastSchedule cfg _ p true) (KW.setStatus cfg s t .done)
+
+theorem KW.cancelTimer (cfg : Cfg) (s : St) (j : Nat) : KW cfg s (Pox.Recoco.cancelTimer s j) :=
+  KW.same rfl (by simp [Pox.Recoco.cancelTimer])
+
+theorem KW.doYield (cfg : Cfg) (s : St) (t : Nat) (y : Y) (hy : ∀ k c, y = Y.again k c → k < cfg.progs.length) :
+    KW cfg s (Pox.Recoco.doYield s t y) := by
+  cases y with
+  | num n => cases n with
+    | zero => exact KW.same rfl rfl
+    | succ n => exact KW.registerSelect cfg s t _ _ _ _
+  | block => exact KW.refl cfg s
+  | sleep d => cases d with
+    | none => exact KW.refl cfg s
+    | some d =>
+      simp only [Pox.Recoco.doYield]
+      split
+      · refine KW.of_after (KW.fastSchedule cfg _ t false) (KW.setTask ?_); intro _; rfl
+      · exact KW.registerSelect cfg s t _ _ _ _
+  | sleepAbs w =>
+    simp only [Pox.Recoco.doYield]
+    split
+    · refine KW.of_after (KW.fastSchedule cfg _ t false) (KW.setTask ?_); intro _; rfl
+    · exact KW.registerSelect cfg s t _ _ _ _
+  | select r w x to => exact KW.registerSelect cfg s t _ _ _ _
+  | recv fd to => refine KW.of_after (KW.registerSelect cfg _ t _ _ _ _) (KW.setTask ?_); intro _; rfl
+  | send fd len to bs => refine KW.of_after (KW.registerSelect cfg _ t _ _ _ _) (KW.setTask ?_); intro _; rfl
+  | exit => exact KW.same rfl rfl
+  | raise n => exact KW.refl cfg s
+  | again k c =>
+    simp only [Pox.Recoco.doYield]
+    refine KW.of_after (KW.fastSchedule cfg _ _ true) ⟨rfl, [.sub k t], by simp, ?_⟩
+    intro kd hk; simp only [List.mem_singleton] at hk; exact ⟨k, t, hk, hy k c rfl⟩
+  | cancel j => exact KW.of_after (b := Pox.Recoco.cancelTimer s j) (KW.same rfl rfl) (KW.cancelTimer cfg s j)
+
+theorem KW.topOut (cfg : Cfg) (s : St) (t : Nat) (o : Out) (ho : ∀ y k c, o = .yield y → y = Y.again k c → k < cfg.progs.length) :
+    KW cfg s (Pox.Recoco.topOut s t o) := by
+  cases o with
+  | stop => exact KW.setStatus cfg s t _
+  | raise e => exact KW.setStatus cfg s t _
+  | yield y => exact KW.doYield cfg s t y (fun k c h => ho y k c rfl h)
+
+theorem KW.subOut (cfg : Cfg) (fx : Bool) (s : St) (t p pc : Nat) (o : Out)
+    (ho : ∀ y k c, o = .yield y → y = Y.again k c → k < cfg.progs.length) : KW cfg s (Pox.Recoco.subOut fx s t p pc o) := by
+  have keep : ∀ (f : Task → Task), (∀ k, (f k).kind = k.kind) → KW cfg s (Pox.Recoco.finishSub (Pox.Recoco.setTask s p f) t p) :=
+    fun f hf => KW.of_after (KW.finishSub cfg _ t p) (KW.setTask hf)
+  cases o with
+  | raise e => refine keep _ ?_; intro _; rfl
+  | stop =>
+    simp only [Pox.Recoco.subOut]
+    split
+    · refine keep _ ?_; intro _; rfl
+    · exact KW.finishSub cfg s t p
+  | yield y =>
+    simp only [Pox.Recoco.subOut]
+    split
+    · exact KW.doYield cfg s t y (fun k c h => ho y k c rfl h)
+    · split
+      · refine keep _ ?_; intro _; rfl
+      · refine keep _ ?_; intro _; rfl
+      · rename_i j _
+        refine KW.of_after (KW.finishSub cfg _ t p) (KW.of_after (b := Pox.Recoco.cancelTimer s j) (KW.setTask ?_) (KW.cancelTimer cfg s j))
+        intro _; rfl
+      · exact KW.refl cfg s
+
+theorem KW.timerStep (cfg : Cfg) (s : St) (t j pc : Nat) : KW cfg s (Pox.Recoco.timerStep s t j pc) := by
+  unfold Pox.Recoco.timerStep
+  split
+  · exact KW.same rfl rfl
+  · split
+    · exact KW.setStatus cfg s t _
+    · split
+      · exact KW.same rfl (by simp)
+      · split
+        · exact KW.doYield cfg s t _ (by intro k c h; cases h)
+        · simp only
+          split
+          · exact KW.same rfl (by simp)
+          · exact KW.of_after (KW.doYield cfg _ t _ (by intro k c h; cases h)) (KW.same rfl (by simp))
+
+theorem genStep_yield_mem {n : Nat} {prog : List Y} {pc : Nat} {r : Recv} {y : Y} (h : genStep n prog pc r = .yield y) : y ∈ prog := by
+  unfold genStep at h
+  have key : ∀ o, (match prog[pc]? with
+      | none => Out.stop
+      | some (.raise n) => .raise (.user n)
+      | some (.cancel j) => if j < n then .yield (.cancel j) else .raise .indexError
+      | some y => .yield y) = o → o = .yield y → y ∈ prog := by
+    intro o ho hy
+    cases hq : prog[pc]? with
+    | none => rw [hq] at ho; subst ho; cases hy
+    | some z =>
+      have hz := List.mem_of_getElem? hq
+      rw [hq] at ho
+      cases z <;> simp at ho
+      all_goals first
+        | (subst ho; cases hy; exact hz)
+        | (subst ho; cases hy)
+        | (split at ho <;> (subst ho; first | (cases hy; exact hz) | cases hy))
+  split at h
+  · cases h
+  · exact key _ rfl h
+
+theorem KW.resumeGen (cfg : Cfg) (hwf : WFcfg cfg) (s : St) (t : Nat) (tk : Task) (r : Recv) (raw : Val) :
+    KW cfg s (Pox.Recoco.resumeGen cfg s t tk r raw) := by
+  have h0 : KW cfg s { Pox.Recoco.setTask s t (fun k => { k with pc := k.pc + 1, wake := none }) with
+                   trace := s.trace ++ [.step t tk.pc s.now r raw tk.wake] } := by
+    refine KW.of_after (b := Pox.Recoco.setTask s t _) (KW.same rfl rfl) (KW.setTask ?_); intro _; rfl
+  have hy : ∀ (k : Nat) (prog : List Y) (n pc : Nat), cfg.progs[k]? = some prog →
+      ∀ y k' c, genStep n prog pc r = .yield y → y = Y.again k' c → k' < cfg.progs.length :=
+    fun k prog n pc hp y k' c hg he => hwf prog (List.mem_of_getElem? hp) y (genStep_yield_mem hg) k' c he
+  unfold Pox.Recoco.resumeGen
+  simp only
+  split
+  · split
+    · refine KW.of_after ?_ h0; exact KW.same rfl rfl
+    · rename_i prog hprog
+      refine KW.of_after ?_ h0; exact KW.topOut cfg _ t _ (hy _ prog _ _ hprog)
+  · split
+    · refine KW.of_after ?_ h0; exact KW.same rfl rfl
+    · rename_i prog hprog
+      split
+      · refine KW.of_after ?_ h0
+        refine KW.of_after (KW.subOut cfg _ _ t _ _ _ (hy _ prog _ _ hprog)) (KW.setTask ?_); intro _; rfl
+      · refine KW.of_after ?_ h0; exact KW.subOut cfg _ _ t _ _ _ (hy _ prog _ _ hprog)
+  · refine KW.of_after ?_ h0; exact KW.timerStep cfg _ t _ _
+
+
+theorem resumeGen_nc (cfg : Cfg) {s : St} {t : Nat} {tk : Task} (h : Held s t) (ht : s.tasks[t]? = some tk)
+    (hw : kindOK cfg s.timers.length tk.kind) (r : Recv) (raw : Val) :
+    (Pox.Recoco.resumeGen cfg s t tk r raw).crashed = s.crashed := by
+  have h0 : Held { Pox.Recoco.setTask s t (fun k => { k with pc := k.pc + 1, wake := none }) with
+                   trace := s.trace ++ [.step t tk.pc s.now r raw tk.wake] } t := by held h
+  have hk0 := kdL_of_get ht
+  unfold Pox.Recoco.resumeGen
+  simp only
+  split
+  · rename_i k hkind
+    rw [hkind] at hw
+    split
+    · rename_i hn; rw [List.getElem?_eq_none_iff] at hn; simp only [kindOK] at hw; omega
+    · rw [topOut_nc h0]; rfl
+  · rename_i k p hkind
+    rw [hkind] at hw
+    have hk1 : kdL s.tasks t = some (.sub k p) := by rw [hk0, hkind]
+    split
+    · rename_i hn; rw [List.getElem?_eq_none_iff] at hn; simp only [kindOK] at hw; omega
+    · split
+      · have hh : Held (setTask { Pox.Recoco.setTask s t (fun k => { k with pc := k.pc + 1, wake := none }) with
+                   trace := s.trace ++ [.step t tk.pc s.now r raw tk.wake] } p (fun k => { k with rv := .none })) t := by held h0
+        rw [subOut_nc (k := k) hh (by simp only [setTask_tasks, kdL_modify, implies_true]; exact hk1)]; rfl
+      · rw [subOut_nc (k := k) h0 (by simp only [setTask_tasks, kdL_modify, implies_true]; exact hk1)]; rfl
+  · rename_i j hkind
+    rw [hkind] at hw
+    rw [timerStep_nc h0 _ _ (by simpa [kindOK] using hw)]; rfl
+
+theorem execPre_crashed (cfg : Cfg) (s : St) (t : Nat) (tk : Task) : (execPre cfg s t tk).2.crashed = s.crashed := by
+  unfold Pox.Recoco.execPre
+  simp only []
+  repeat' split
+  all_goals rfl
+
+theorem KW.execPre (cfg : Cfg) (s : St) (t : Nat) (tk : Task) : KW cfg s (Pox.Recoco.execPre cfg s t tk).2 := by
+  refine ⟨by rw [execPre_timers], [], ?_, by simp⟩
+  have := execPre_ctl cfg s t tk
+  have e : ∀ l : List Task, l.map (·.kind) = (l.map ctl).map (·.1) := by intro l; simp [ctl]
+  rw [List.append_nil, e, e, this]
+
+theorem WFs.get {cfg : Cfg} {s : St} (h : WFs cfg s) {t : Nat} {tk : Task} (ht : s.tasks[t]? = some tk) :
+    kindOK cfg s.timers.length tk.kind := h _ (List.mem_map_of_mem (List.mem_of_getElem? ht))
+
+/-- one `cycleExec` neither crashes nor breaks well-formedness -/
+theorem cycleExec_nc (cfg : Cfg) (hwf : WFcfg cfg) {s : St} (hi : Inv s) (hw : WFs cfg s) :
+    (Pox.Recoco.cycleExec cfg s).crashed = s.crashed ∧ KW cfg s (Pox.Recoco.cycleExec cfg s) := by
+  unfold Pox.Recoco.cycleExec
+  split
+  · exact ⟨rfl, KW.refl cfg s⟩
+  · rename_i t hr
+    have h0 : Held { s with running := none } t := by
+      refine ⟨rfl, ?_⟩
+      have := hi
+      simp only [Inv, places, hr, incTids, hubTids, Option.toList, List.cons_append, List.nil_append] at this ⊢
+      exact this
+    simp only
+    split
+    · rename_i hn
+      have := stL_some h0.live
+      obtain ⟨k, hk⟩ := this
+      have hk' : s.tasks[t]? = some k := hk
+      rw [hk'] at hn; cases hn
+    · rename_i tk htk
+      have htk' : s.tasks[t]? = some tk := htk
+      have hp := h0.execPre cfg tk
+      have hc := execPre_crashed cfg { s with running := none } t tk
+      have hkw : KW cfg s (Pox.Recoco.execPre cfg { s with running := none } t tk).2 :=
+        KW.of_after (KW.execPre cfg _ t tk) (KW.same rfl rfl)
+      have hctl := execPre_ctl cfg { s with running := none } t tk
+      split
+      · rename_i s1 he; rw [he] at hc hkw; exact ⟨hc, hkw⟩
+      · rename_i e s1 he; rw [he] at hc hkw
+        exact ⟨hc, KW.of_after (b := s1) (KW.setStatus cfg s1 t .dead) hkw⟩
+      · rename_i r s1 he; rw [he] at hp hc hkw hctl
+        have hkw' : KW cfg s s1 := hkw
+        have hws1 : WFs cfg s1 := hkw'.wfs hw
+        split
+        · rename_i hn
+          exfalso
+          have e1 := ctl_get (l := s.tasks) htk'
+          have : (s1.tasks.map ctl)[t]? = some (ctl tk) := by
+            have hctl' : s1.tasks.map ctl = s.tasks.map ctl := hctl
+            rw [hctl']; exact e1
+          simp [hn] at this
+        · rename_i tk1 htk1
+          have hres := resumeGen_nc cfg (tk := tk1) hp htk1 (hws1.get htk1) r tk.rv
+          exact ⟨hres.trans hc, KW.of_after (KW.resumeGen cfg hwf s1 t tk1 r tk.rv) hkw'⟩
+
+
+/-! ### the hub side never crashes -/
+
+theorem hubDelReturn_nc {s : St} {t : Nat} (v : Val) (hm : t ∈ hubTids s) (hnr : t ∉ s.ready) :
+    (hubDelReturn s t v).crashed = s.crashed := by
+  unfold Pox.Recoco.hubDelReturn hubReturn
+  rw [if_pos hm, fastSchedule_nc false (by simpa using hnr)]; rfl
+
+theorem hubTids_hubDelReturn {s : St} {t u : Nat} (v : Val) (hu : u ∈ hubTids s) (hne : u ≠ t) :
+    u ∈ hubTids (hubDelReturn s t v) := by
+  unfold Pox.Recoco.hubDelReturn hubReturn fastSchedule
+  have key : u ∈ (s.hub.filter (fun e => e.tid ≠ t)).map (·.tid) := by
+    obtain ⟨e, he, rfl⟩ := List.mem_map.mp hu
+    exact List.mem_map.mpr ⟨e, List.mem_filter.mpr ⟨he, by simpa using hne⟩, rfl⟩
+  split
+  · split <;> simpa [hubTids] using key
+  · exact hu
+
+theorem returnExpired_nc : ∀ (l : List Nat) {s : St}, Inv s → l.Nodup → (∀ t ∈ l, t ∈ hubTids s) →
+    (returnExpired s l).crashed = s.crashed ∧ ∀ u, u ∈ hubTids s → u ∉ l → u ∈ hubTids (returnExpired s l)
+  | [], _, _, _, _ => ⟨rfl, fun _ h _ => h⟩
+  | t :: r, s, hi, hn, hm => by
+    have hn' := List.nodup_cons.mp hn
+    have hc := hubDelReturn_nc (s := s) timeoutVal (hm t List.mem_cons_self) (hi.not_ready_of_hub (hm t List.mem_cons_self))
+    have hkeep : ∀ u, u ∈ hubTids s → u ≠ t → u ∈ hubTids (hubDelReturn s t timeoutVal) :=
+      fun u hu hne => hubTids_hubDelReturn timeoutVal hu hne
+    simp only [Pox.Recoco.returnExpired]
+    split
+    · exact ⟨hc, fun u hu hnl => hkeep u hu (fun e => hnl (e ▸ List.mem_cons_self))⟩
+    · have ih := returnExpired_nc r (hi.hubDelReturn t timeoutVal) hn'.2
+        (fun u hu => hkeep u (hm u (List.mem_cons_of_mem _ hu)) (fun e => hn'.1 (e ▸ hu)))
+      exact ⟨ih.1.trans hc, fun u hu hnl => ih.2 u (hkeep u hu (fun e => hnl (e ▸ List.mem_cons_self)))
+        (fun h => hnl (List.mem_cons_of_mem _ h))⟩
+
+theorem returnAll_nc : ∀ (rets : Rets) {s : St}, Inv s → (rets.map (·.1)).Nodup → (∀ t ∈ rets.map (·.1), t ∈ hubTids s) →
+    (returnAll s rets).crashed = s.crashed
+  | [], _, _, _, _ => rfl
+  | (t, (a, b, c)) :: r, s, hi, hn, hm => by
+    simp only [List.map_cons] at hn hm
+    have hn' := List.nodup_cons.mp hn
+    have hc := hubDelReturn_nc (s := s) (.sel a b c) (hm t List.mem_cons_self) (hi.not_ready_of_hub (hm t List.mem_cons_self))
+    simp only [Pox.Recoco.returnAll]
+    split
+    · exact hc
+    · have ih := returnAll_nc r (hi.hubDelReturn t (.sel a b c)) hn'.2
+        (fun u hu => hubTids_hubDelReturn _ (hm u (List.mem_cons_of_mem _ hu)) (fun e => hn'.1 (e ▸ hu)))
+      exact ih.trans hc
+
+theorem drain_nc : ∀ (l : List HubEntry) (s : St), (l.map (·.tid) ++ hubTids s).Nodup →
+    (drain s l).crashed = s.crashed ∧ ∀ u, u ∈ hubTids s → u ∈ hubTids (drain s l)
+  | [], s, _ => ⟨rfl, fun _ h => h⟩
+  | e :: r, s, hn => by
+    have hne : e.tid ∉ hubTids s := by
+      intro hm
+      have := List.nodup_append.mp hn
+      exact this.2.2 e.tid (by simp) e.tid hm rfl
+    simp only [drain]
+    rw [if_neg hne]
+    have hn2 : (r.map (·.tid) ++ hubTids { s with hub := s.hub ++ [e] }).Nodup := by
+      simp only [hubTids, List.map_append, List.map_cons, List.map_nil]
+      have : (e.tid :: (r.map (·.tid) ++ s.hub.map (·.tid))).Nodup := by simpa [hubTids] using hn
+      have hp : (r.map (·.tid) ++ (s.hub.map (·.tid) ++ [e.tid])).Perm (e.tid :: (r.map (·.tid) ++ s.hub.map (·.tid))) := by
+        rw [← List.append_assoc]; exact List.perm_append_singleton _ _
+      exact hp.nodup_iff.mpr this
+    have ih := drain_nc r _ hn2
+    exact ⟨ih.1, fun u hu => ih.2 u (by simp only [hubTids, List.map_append, List.mem_append]; exact .inl hu)⟩
+
+theorem Inv.nodup_inc_hub {s : St} (hi : Inv s) : (incTids s ++ hubTids s).Nodup := by
+  have hsub : (incTids s ++ hubTids s).Sublist (places s) :=
+    (List.sublist_append_right _ _).trans (List.sublist_append_right _ _)
+  exact hsub.nodup hi.nodup
+
+theorem hubPong_nc (r : SelRes) {s : St} (hi : Inv s) :
+    (hubPong r s).crashed = s.crashed ∧ ∀ u, u ∈ hubTids s → u ∈ hubTids (hubPong r s) := by
+  unfold Pox.Recoco.hubPong
+  split
+  · have hn : (s.incoming.map (·.tid) ++ hubTids ({ s with pings := s.pings - 1024 } : St)).Nodup := by
+      have := hi.nodup_inc_hub
+      simp only [incTids, hubTids] at this ⊢
+      exact this
+    obtain ⟨h1, h2⟩ := drain_nc s.incoming { s with pings := s.pings - 1024 } hn
+    refine ⟨?_, ?_⟩
+    · rw [h1]
+    · intro u hu
+      refine h2 u ?_
+      simp only [hubTids] at hu ⊢
+      exact hu
+  · exact ⟨rfl, fun _ h => h⟩
+
+/-! keys of the `rets` dictionary -/
+
+theorem retsAdd_keys (rets : Rets) (t which i : Nat) :
+    (retsAdd rets t which i).map (·.1) = if t ∈ rets.map (·.1) then rets.map (·.1) else rets.map (·.1) ++ [t] := by
+  induction rets with
+  | nil => simp [retsAdd]
+  | cons a r ih =>
+    obtain ⟨t', a1, b1, c1⟩ := a
+    simp only [retsAdd]
+    by_cases e : t' = t
+    · simp [e]
+    · have e' : ¬ t = t' := fun h => e h.symm
+      simp only [if_neg e, List.map_cons, ih, List.mem_cons, e', false_or]
+      split <;> simp
+
+theorem retsLoop_keys {m : List (Nat × Nat)} {which : Nat} {K : Nat → Prop} (hm : ∀ p ∈ m, K p.2) :
+    ∀ (is : List Nat) (rets rets' : Rets), retsLoop m which is rets = some rets' →
+      (rets.map (·.1)).Nodup → (∀ t ∈ rets.map (·.1), K t) → (rets'.map (·.1)).Nodup ∧ ∀ t ∈ rets'.map (·.1), K t
+  | [], rets, rets', h, hn, hk => by simp only [retsLoop, Option.some.injEq] at h; subst h; exact ⟨hn, hk⟩
+  | i :: is, rets, rets', h, hn, hk => by
+    simp only [retsLoop] at h
+    split at h
+    · cases h
+    · rename_i t ht
+      refine retsLoop_keys hm is _ rets' h ?_ ?_
+      · rw [retsAdd_keys]; split
+        · exact hn
+        · rename_i hnm; exact List.nodup_append.mpr ⟨hn, by simp, fun a ha b hb => by simp at hb; subst hb; exact fun e => hnm (e ▸ ha)⟩
+      · intro u hu
+        rw [retsAdd_keys] at hu
+        split at hu
+        · exact hk u hu
+        · rcases List.mem_append.mp hu with h1 | h1
+          · exact hk u h1
+          · simp at h1; subst h1; exact hm _ (dictGet_mem ht)
+
+theorem dictGet_of_key {m : List (Nat × Nat)} {i : Nat} (h : i ∈ m.map (·.1)) : ∃ t, dictGet m i = some t := by
+  induction m with
+  | nil => simp at h
+  | cons a r ih =>
+    obtain ⟨k', v'⟩ := a
+    simp only [dictGet]
+    by_cases e : k' = i
+    · exact ⟨v', by simp [e]⟩
+    · simp only [List.map_cons, List.mem_cons] at h
+      rcases h with h | h
+      · exact absurd h.symm e
+      · simp only [if_neg e]; exact ih h
+
+theorem retsLoop_some {m : List (Nat × Nat)} {which : Nat} : ∀ (is : List Nat) (rets : Rets), (∀ i ∈ is, i ∈ m.map (·.1)) →
+    ∃ rets', retsLoop m which is rets = some rets'
+  | [], rets, _ => ⟨rets, rfl⟩
+  | i :: is, rets, h => by
+    obtain ⟨t, ht⟩ := dictGet_of_key (h i List.mem_cons_self)
+    simp only [retsLoop, ht]
+    exact retsLoop_some is _ (fun j hj => h j (List.mem_cons_of_mem _ hj))
+
+theorem readyAt_sub (tab : List (Option Nat)) (t : Nat) (fds : List Nat) : ∀ i ∈ readyAt tab t fds, i ∈ fds :=
+  fun i hi => (List.mem_filter.mp hi).1
+
+theorem vselect_sub (env : Env) (now : Nat) (rk wk xk : List Nat) (to : Nat) (p ht : Bool) :
+    (∀ i ∈ (vselect env now rk wk xk to p ht).ro, i ∈ rk) ∧ (∀ i ∈ (vselect env now rk wk xk to p ht).wo, i ∈ wk) ∧
+    (∀ i ∈ (vselect env now rk wk xk to p ht).xo, i ∈ xk) := by
+  unfold vselect
+  simp only []
+  split
+  · exact ⟨readyAt_sub _ _ _, readyAt_sub _ _ _, readyAt_sub _ _ _⟩
+  · split
+    · split
+      · exact ⟨readyAt_sub _ _ _, readyAt_sub _ _ _, readyAt_sub _ _ _⟩
+      · simp
+    · split <;> simp
+
+
+def expiredP (now : Nat) (e : HubEntry) : Bool :=
+  match e.tto with
+  | some w => decide (w ≤ now)
+  | none => false
+
+theorem addFds_expired (sc : Scan) (e : HubEntry) : (addFds sc e).expired = sc.expired := rfl
+
+theorem scanEntry_expired (now : Nat) (sc : Scan) (e : HubEntry) :
+    (scanEntry now sc e).expired = sc.expired ++ (if expiredP now e then [e.tid] else []) := by
+  unfold scanEntry expiredP
+  split
+  · rename_i h; simp [h, addFds_expired]
+  · rename_i w h
+    split
+    · rename_i hle; simp [h, hle]
+    · rename_i hle
+      simp only [h, hle, decide_false, Bool.false_eq_true, if_false, List.append_nil]
+      split
+      · rfl
+      · split <;> rfl
+
+theorem scan_expired (now : Nat) : ∀ (l : List HubEntry) (sc : Scan),
+    (l.foldl (scanEntry now) sc).expired = sc.expired ++ (l.filter (expiredP now)).map (·.tid)
+  | [], sc => by simp
+  | e :: r, sc => by
+    rw [List.foldl_cons, scan_expired now r, scanEntry_expired, List.filter_cons]
+    by_cases h : expiredP now e = true <;> simp [h]
+
+theorem hubScan_expired (s : St) : (hubScan s).expired = (s.hub.filter (expiredP s.now)).map (·.tid) := by
+  have := scan_expired s.now s.hub {}
+  simpa [hubScan] using this
+
+theorem hubScan_expired_props {s : St} (hi : Inv s) :
+    (hubScan s).expired.Nodup ∧ (∀ t ∈ (hubScan s).expired, t ∈ hubTids s) ∧
+    (∀ e ∈ s.hub, (∀ w, e.tto = some w → s.now < w) → e.tid ∉ (hubScan s).expired) := by
+  rw [hubScan_expired]
+  have hsub : ((s.hub.filter (expiredP s.now)).map (·.tid)).Sublist (hubTids s) := (List.filter_sublist).map _
+  refine ⟨hsub.nodup hi.nodup_hub, fun t ht => hsub.subset ht, ?_⟩
+  intro e he hlive hm
+  obtain ⟨e', he', het⟩ := List.mem_map.mp hm
+  obtain ⟨he'h, hp⟩ := List.mem_filter.mp he'
+  have hn : (s.hub.map (·.tid)).Nodup := hi.nodup_hub
+  have : e' = e := tid_inj hn he'h he het
+  subst this
+  unfold expiredP at hp
+  cases hw : e'.tto with
+  | none => simp [hw] at hp
+  | some w => simp [hw] at hp; have := hlive w hw; omega
+
+theorem hubDispatch_nc (sc : Scan) (r : SelRes) {s : St} (hi : Inv s) (hc : s.crashed = false)
+    (hro : ∀ i ∈ r.ro, i ∈ sc.rl.map (·.1)) (hwo : ∀ i ∈ r.wo, i ∈ sc.wl.map (·.1)) (hxo : ∀ i ∈ r.xo, i ∈ sc.xl.map (·.1))
+    (hK : ∀ p, p ∈ sc.rl ∨ p ∈ sc.wl ∨ p ∈ sc.xl → p.2 ∈ hubTids s) : (hubDispatch sc r s).crashed = false := by
+  unfold Pox.Recoco.hubDispatch
+  rw [if_neg (by simp [hc])]
+  split
+  · exact hc
+  · obtain ⟨r1, h1⟩ := retsLoop_some (m := sc.rl) (which := 0) r.ro [] hro
+    obtain ⟨r2, h2⟩ := retsLoop_some (m := sc.wl) (which := 1) r.wo r1 hwo
+    obtain ⟨r3, h3⟩ := retsLoop_some (m := sc.xl) (which := 2) r.xo r2 hxo
+    have k1 := retsLoop_keys (K := fun t => t ∈ hubTids s) (fun p hp => hK p (.inl hp)) _ _ _ h1 (by simp) (by simp)
+    have k2 := retsLoop_keys (K := fun t => t ∈ hubTids s) (fun p hp => hK p (.inr (.inl hp))) _ _ _ h2 k1.1 k1.2
+    have k3 := retsLoop_keys (K := fun t => t ∈ hubTids s) (fun p hp => hK p (.inr (.inr hp))) _ _ _ h3 k2.1 k2.2
+    simp only [h1, h2, h3, Option.bind_some]
+    rw [returnAll_nc r3 hi k3.1 k3.2]; exact hc
+
+theorem hubFinish_nc (sc : Scan) (r : SelRes) {s : St} (hi : Inv s) (hc : s.crashed = false)
+    (htt : ∀ t, sc.timeoutTask = some t → t ∈ hubTids s)
+    (hro : ∀ i ∈ r.ro, i ∈ sc.rl.map (·.1)) (hwo : ∀ i ∈ r.wo, i ∈ sc.wl.map (·.1)) (hxo : ∀ i ∈ r.xo, i ∈ sc.xl.map (·.1))
+    (hK : ∀ p, p ∈ sc.rl ∨ p ∈ sc.wl ∨ p ∈ sc.xl → p.2 ∈ hubTids s) : (hubFinish sc r s).crashed = false := by
+  unfold Pox.Recoco.hubFinish
+  split
+  · split
+    · rename_i t ht
+      rw [hubDelReturn_nc timeoutVal (htt t ht) (hi.not_ready_of_hub (htt t ht))]; exact hc
+    · exact hc
+  · have hp := hubPong_nc r hi
+    exact hubDispatch_nc sc r (hi.hubPong r) (by rw [hp.1]; exact hc) hro hwo hxo (fun p hp' => hp.2 _ (hK p hp'))
+
+theorem hubSelect_nc (cfg : Cfg) {s : St} (hi : Inv s) (hc : s.crashed = false) : (hubSelect cfg s).crashed = false := by
+  have hsc := hubScan_ok s
+  obtain ⟨hnd, hmem, hlive⟩ := hubScan_expired_props hi
+  have hexp := returnExpired_nc (hubScan s).expired hi hnd hmem
+  have hi1 := Inv.returnExpired (hubScan s).expired hi
+  have keep : ∀ e ∈ s.hub, (∀ w, e.tto = some w → s.now < w) → e.tid ∈ hubTids (Pox.Recoco.returnExpired s (hubScan s).expired) :=
+    fun e he hl => hexp.2 e.tid (List.mem_map_of_mem he) (hlive e he hl)
+  unfold Pox.Recoco.hubSelect
+  simp only []
+  split
+  · rename_i h; rw [hexp.1, hc] at h; cases h
+  · have hv := vselect_sub cfg.env (Pox.Recoco.returnExpired s (hubScan s).expired).now ((hubScan s).rl.map (·.1))
+      ((hubScan s).wl.map (·.1)) ((hubScan s).xl.map (·.1)) (hubTimeout (hubScan s))
+      (decide (0 < (Pox.Recoco.returnExpired s (hubScan s).expired).pings)) (hubScan s).timeoutTask.isSome
+    refine hubFinish_nc _ _ ?_ ?_ ?_ hv.1 hv.2.1 hv.2.2 ?_
+    · held hi1
+    · show (Pox.Recoco.returnExpired s (hubScan s).expired).crashed = false
+      rw [hexp.1]; exact hc
+    · intro t ht
+      obtain ⟨e, he, het, w, hw, hlt, _⟩ := hsc.timeout t ht
+      have := keep e he (fun w' hw' => by rw [hw] at hw'; cases hw'; exact hlt)
+      rw [het] at this
+      simpa [hubTids] using this
+    · intro p hp
+      obtain ⟨e, he, het, _, hl⟩ := hsc.fds p hp
+      have := keep e he hl
+      rw [het] at this
+      simpa [hubTids] using this
+
+/-- nothing in the scheduler or the hub trips over its own bookkeeping, and the task table stays well-formed -/
+structure NC (cfg : Cfg) (s : St) : Prop where
+  crashed : s.crashed = false
+  wfs : WFs cfg s
+
+theorem NC.idleStep (cfg : Cfg) {s : St} (hi : Inv s) (h : NC cfg s) : NC cfg (idleStep cfg s) := by
+  have hf := HubFr.idleStep cfg s
+  refine ⟨?_, ?_⟩
+  · unfold Pox.Recoco.idleStep
+    split
+    · exact hubSelect_nc cfg hi h.crashed
+    · exact h.crashed
+  · intro kd hm
+    have e : ∀ l : List Task, l.map (·.kind) = (l.map eraseRv).map (·.kind) := by intro l; simp [eraseRv]
+    rw [e, hf.tasks, ← e] at hm
+    rw [hf.timers]; exact h.wfs kd hm
+
+theorem NC.cycle (cfg : Cfg) (hwf : WFcfg cfg) {s : St} (hi : Inv s) (h : NC cfg s) : NC cfg (cycle cfg s) := by
+  unfold Pox.Recoco.cycle
+  have hi' : Inv (cyclePop { s with cycles := s.cycles + 1 }) := by refine Inv.cyclePop ?_; held hi
+  have hkw : KW cfg s (cyclePop { s with cycles := s.cycles + 1 }) := by
+    unfold Pox.Recoco.cyclePop
+    repeat' split
+    all_goals exact KW.same rfl rfl
+  have hc : (cyclePop { s with cycles := s.cycles + 1 }).crashed = s.crashed := by
+    unfold Pox.Recoco.cyclePop
+    repeat' split
+    all_goals rfl
+  have := cycleExec_nc cfg hwf hi' (hkw.wfs h.wfs)
+  exact ⟨by rw [this.1, hc]; exact h.crashed, this.2.wfs (hkw.wfs h.wfs)⟩
+
+theorem NC.iter (cfg : Cfg) (hwf : WFcfg cfg) {s : St} (hi : Inv s) (h : NC cfg s) : NC cfg (iter cfg s) := by
+  unfold Pox.Recoco.iter
+  have h1 := h.idleStep cfg hi
+  have hi1 := hi.idleStep cfg
+  split
+  · exact h
+  · simp only []
+    split
+    · exact h1
+    · exact h1.cycle cfg hwf hi1
+
+theorem NC.run (cfg : Cfg) (hwf : WFcfg cfg) : ∀ (n : Nat) {s : St}, Inv s → NC cfg s → NC cfg (run cfg n s)
+  | 0, _, _, h => h
+  | n + 1, _, hi, h => NC.run cfg hwf n (hi.iter cfg) (h.iter cfg hwf hi)
+
+theorem NC.init (cfg : Cfg) (t0 : Nat) (tasks : List Nat) (timers : List TimerCfg) (ss rs : List (Option Nat)) (ps ds : List Nat)
+    (ht : ∀ k ∈ tasks, k < cfg.progs.length) : NC cfg (initSt t0 tasks timers ss rs ps ds) := by
+  refine ⟨rfl, ?_⟩
+  intro kd hm
+  rw [initSt_view (·.kind) (fun _ _ => rfl)] at hm
+  rcases List.mem_append.mp hm with h | h
+  · obtain ⟨k, hk, rfl⟩ := List.mem_map.mp h; exact ht k hk
+  · obtain ⟨j, hj, rfl⟩ := List.mem_map.mp h
+    simp only [kindOK, initSt, List.length_map]
+    exact List.mem_range.mp hj
 
 end Pox.Recoco
